@@ -68,7 +68,7 @@ class ChainHist(Engine):
             elif r < 0.72:
                 a = {'op': 'parse', 'i': rng.randrange(1 << 16), 'edit': None}
                 if rng.random() < 0.35:
-                    a['edit'] = {'how': rng.choice(['sub', 'del', 'ins', 'upper', 'swapcase1', 'trunc', 'dup', 'fold', 'kelvin', 'fullwidth']), 'pos': rng.randrange(1 << 16),
+                    a['edit'] = {'how': rng.choice(['sub', 'del', 'ins', 'upper', 'swapcase1', 'trunc', 'dup', 'fold', 'kelvin', 'fullwidth', 'newline', 'newline', 'crlf', 'space', 'tab', 'nul', 'leading-space', 'bom']), 'pos': rng.randrange(1 << 16),
                                  'ch': rng.choice('qpzry9x8gf2tvdw0s3jn54khce6mua7l123456789ABCDEFGHJKLMNPQRSTUVWXYZabcdefghijkmnopqrstuvwxyz0OIl')}
             elif r < 0.8:
                 a = {'op': 'parse_wv', 'version': rng.randint(1, 16), 'prog': gen.rhex(rng, rng.choice([2, 20, 32, 40, rng.randint(2, 40)])),
@@ -294,6 +294,11 @@ class ChainHist(Engine):
             return text[:p] + chr(0x100 + ord(text[p])) + text[p + 1:]
         if how == 'fullwidth':
             return text[:p] + chr(0xff00 + ord(text[p]) - 0x20) + text[p + 1:]
+        if how in ('newline', 'crlf', 'space', 'tab', 'nul', 'leading-space', 'bom'):
+            c = {'newline': '\n', 'crlf': '\r\n', 'space': ' ', 'tab': '\t', 'nul': '\x00', 'leading-space': ' ', 'bom': '\ufeff'}[how]
+            if how in ('leading-space', 'bom'):
+                return c + text
+            return (text.upper() if p % 2 else text) + c
         if how == 'kelvin':
             u = text.upper()
             i = u.find('K', p)
